@@ -77,9 +77,11 @@ var pkgs = map[string]pkgInfo{
 	"big":     {"math/big", false, []string{"NewInt"}, []string{"Int", "Float"}},
 	"tmpl":    {"text/template", true, []string{"New", "Must"}, []string{"Template"}},
 	"utf8":    {"unicode/utf8", false, []string{"RuneLen", "UTFMax"}, nil},
+	// (the one importable std package whose name is not its last path element)
+	"rand": {"math/rand/v2", false, []string{"IntN", "N", "Uint64"}, []string{"Rand", "PCG"}},
 }
 
-var pkgNames = []string{"fmt", "os", "strings", "rnd", "big", "tmpl", "utf8"}
+var pkgNames = []string{"fmt", "os", "strings", "rnd", "big", "tmpl", "utf8", "rand"}
 
 var vars = []string{"a", "b", "c", "x", "y", "z", "i", "j", "n", "s", "v", "err", "ok", "_x", "α", "xs", "m", "ch", "p", "q"}
 var typeNames = []string{"T", "U", "Node", "List", "int", "string", "bool", "float64", "byte", "rune", "error", "any", "uint8", "complex128"}
